@@ -357,7 +357,8 @@ CLAIMED["C28"] = dict(
         "the filer for a request with an aws-chunked body is read through the decoding reader, set up without error - or nothing is stored.",
    note="sort.SliceStable (library) is assumed to sort by the comparison it is given; the filer listing, mkFile and the upload directory are opaque; part numbers are "
         "compared for names without a sign character. Not decided: the aws-chunked decoder itself, copy, range reads through S3 (C32 decides the volume server's "
-        "range answers), batch delete, the order of the chunks inside one part (taken as listed). Two defects repaired (part 10000 was concatenated before part 1001; "
+        "range answers), batch delete, the order of the chunks inside one part (taken as listed). One open known finding (the single-object delete asks the filer for a "
+        "recursive delete: deleting a key that is also a prefix of other keys removes those too; replayed in two parts). Two defects repaired (part 10000 was concatenated before part 1001; "
         "a streaming-signed part was stored with its framing when no identities are configured). "
         + TRUST,
    design="DESIGN.md §4 C28")
